@@ -4,6 +4,7 @@ mod extract;
 mod c03;
 mod c14;
 mod c15;
+mod c17;
 mod fault;
 mod plonkrun;
 mod rec;
@@ -31,6 +32,7 @@ fn main() {
         "c03" => c03::main(rest),
         "c14" => c14::main(rest),
         "c15" => c15::main(rest),
+        "c17" => c17::main(rest),
         "randshape" => {
             let seed: u64 = rest[0].parse().unwrap();
             println!("{}", serde_json::to_string(&shapes::random_shape(seed)).unwrap());
